@@ -1,6 +1,8 @@
 package rtpreceiver
 
 import (
+	"github.com/pion/rtcp"
+
 	"time"
 
 	"github.com/bluenviron/gortsplib/v5/pkg/ntp"
@@ -63,4 +65,30 @@ func ZzC15PacketNTPSign() {
 	}
 	zzCover("backward", d32 < 0)
 	zzCover("forward", d32 > 0)
+}
+
+// C15 (reports and packets interleaved): after ANY sequence of K sender
+// reports (arbitrary NTP and RTP values - the writer's clock may step in either
+// direction), on reliable and unreliable transports, the mapping is anchored to
+// the LAST report processed: a packet carrying exactly that report's RTP time
+// is dated with exactly that report's NTP time, and before any report no
+// absolute time is given.
+func ZzC15ReportSequence() {
+	K := zzParam("K", 2)
+	rr := &Receiver{ClockRate: zzParam("RATE", 90000), Period: time.Second, UnrealiableTransport: zzBool("unreliable")}
+	_, ok0 := rr.PacketNTP(zzU32("early"))
+	zzAssert(!ok0, "no absolute time before the first sender report")
+	var lastNTP uint64
+	var lastRTP uint32
+	for k := 0; k < K; k++ {
+		sec := zzU64("ntpsec")
+		zzAssume(zzAnd(sec >= 2208988800+86400*365, sec < 1<<32))
+		lastNTP = sec<<32 | uint64(0x80000000)
+		lastRTP = zzU32("rtp")
+		rr.ProcessSenderReport(&rtcp.SenderReport{NTPTime: lastNTP, RTPTime: lastRTP}, time.Time{})
+	}
+	got, ok := rr.PacketNTP(lastRTP)
+	zzAssert(ok, "absolute time available after a sender report")
+	zzAssert(got.Equal(ntp.Decode(lastNTP)), "a packet with the RTP time of the last report is dated with that report's NTP time")
+	zzCover("done", true)
 }
